@@ -54,12 +54,22 @@ Value& MODExpression::value(Context & ctx) const
       v = Value(Value::type_integer);
       break;
     case Type::INTEGER:
+      if (a0.isNull() || a1.isNull())
+      {
+        v = Value(Value::type_integer);
+        break;
+      }
       if (*a1.integer() == 0)
         throw RuntimeError(EXC_RT_DIVIDE_BY_ZERO);
       /* INT64_MIN % -1 overflows: the remainder of a division by -1 is 0 */
       v = Value(*a1.integer() == -1 ? Integer(0) : Integer(*a0.integer() % *a1.integer()));
       break;
     case Type::NUMERIC:
+      if (a0.isNull() || a1.isNull())
+      {
+        v = Value(Value::type_numeric);
+        break;
+      }
       if (*a1.numeric() == 0.0)
         throw RuntimeError(EXC_RT_DIVIDE_BY_ZERO);
       v = Value(Numeric(std::fmod((double)*a0.integer(), *a1.numeric())));
@@ -75,11 +85,21 @@ Value& MODExpression::value(Context & ctx) const
       v = Value(Value::type_numeric);
       break;
     case Type::INTEGER:
+      if (a0.isNull() || a1.isNull())
+      {
+        v = Value(Value::type_numeric);
+        break;
+      }
       if (*a1.integer() == 0)
         throw RuntimeError(EXC_RT_DIVIDE_BY_ZERO);
       v = Value(Numeric(std::fmod(*a0.numeric(), (double)*a1.integer())));
       break;
     case Type::NUMERIC:
+      if (a0.isNull() || a1.isNull())
+      {
+        v = Value(Value::type_numeric);
+        break;
+      }
       if (*a1.numeric() == 0.0)
         throw RuntimeError(EXC_RT_DIVIDE_BY_ZERO);
       v = Value(Numeric(std::fmod(*a0.numeric(), *a1.numeric())));
